@@ -3,7 +3,7 @@
    world reached by an ARBITRARY op sequence (new / backoff with any observed sleep / clone / fork /
    update-using-forked / reset / reset-max-sleep / cancel / kill), see Model.v. *)
 From Coq Require Import ZArith List Bool.
-From Verif Require Import Backoff.Model Backoff.ProofsBase Backoff.ProofsStep Backoff.ProofsInv Backoff.ProofsAcct.
+From Verif Require Import Backoff.Model Backoff.ProofsBase Backoff.ProofsStep Backoff.ProofsInv Backoff.ProofsAcct Backoff.ProofsExt Backoff.ProofsCtx.
 Import ListNotations.
 Open Scope Z_scope.
 
@@ -41,8 +41,8 @@ Theorem C20_longest : forall e ops i c maxms errid s w' cands,
   exists b, nth_error (w_bos (run e init_world ops)) i = Some b /\ 0 < b_max b /\ exceeded e b (c_name c) = true /\
     cands <> [] /\
     (0 < longest_val e (b_sleep b) ->
-       forall r, In r cands -> exists n cf, r = Some (c_err cf) /\ first_cfg n (b_cfgs b) = Some cf /\ c_name cf = n /\ is_longest e b n) /\
-    (longest_val e (b_sleep b) <= 0 -> cands = [cand_err b 0]).
+       forall r, In r cands -> exists n cf, r = Some (cur_err (run e init_world ops) cf) /\ first_cfg n (b_cfgs b) = Some cf /\ c_name cf = n /\ is_longest e b n) /\
+    (longest_val e (b_sleep b) <= 0 -> cands = [cand_err (run e init_world ops) b 0]).
 Proof. exact longest_thm. Qed.
 Print Assumptions C20_longest.
 
@@ -122,8 +122,95 @@ Theorem C20_merge_sum : forall e w i b bops,
 Proof. exact fork_merge_sum. Qed.
 Print Assumptions C20_merge_sum.
 
+(* ---------- extension round ---------- *)
+(* Budget for ALL op sequences (ResetMaxSleep and merges freely mixed).  [b_hi] is a ghost field of the model:
+   the largest budget under which the back-offer's current total was accumulated (own budget after New / Reset /
+   ResetMaxSleep; copied by Fork / Clone; max(own budget, fork's ghost) after UpdateUsingForked; None as soon as
+   an unlimited budget (<= 0) took part). *)
+Theorem C20_budget_general : forall C L e ops i b h,
+  0 <= C -> env_bound e L -> Forall (op_wf C) ops ->
+  nth_error (w_bos (run e init_world ops)) i = Some b -> b_hi b = Some h ->
+  b_max b <= h /\ b_total b - b_excl b < h + C /\ b_excl b < Z.max L h + C /\ 0 <= b_excl b <= b_total b.
+Proof. exact budget_general. Qed.
+Print Assumptions C20_budget_general.
+
+(* the ghost is the back-offer's own budget whenever ResetMaxSleep and merges are not mixed (=> C20_budget) *)
+Theorem C20_budget_ghost_own : forall e ops, Forall not_merge ops \/ Forall not_resetmax ops ->
+  Forall (fun b => b_hi b = budget_hi (b_max b)) (w_bos (run e init_world ops)).
+Proof. exact reach_hi_own. Qed.
+Print Assumptions C20_budget_ghost_own.
+
+(* ghost-free corollary: if every back-offer's budget stays within (0, B] during the whole run (any mixture of
+   ResetMaxSleep, forks and merges), every back-offer stays below B + one step *)
+Theorem C20_budget_bounded : forall C L B e ops i b,
+  0 <= C -> env_bound e L -> Forall (op_wf C) ops -> always (budgets_in B) e init_world ops ->
+  nth_error (w_bos (run e init_world ops)) i = Some b ->
+  b_total b - b_excl b < B + C /\ b_excl b < Z.max L B + C /\ 0 <= b_excl b <= b_total b.
+Proof. exact budget_bounded. Qed.
+Print Assumptions C20_budget_bounded.
+
+(* Integer ranges: after n ops every int the code keeps is within [0, n*C] (times, errorsNum, attempts within
+   [0, n]; lastSleep within [0, max(cap, base)]) — the model's unbounded Z never leaves the int64 range. *)
+Theorem C20_no_overflow : forall C e ops i b, 0 <= C -> Forall (op_wf C) ops ->
+  nth_error (w_bos (run e init_world ops)) i = Some b -> size_inv C (Z.of_nat (length ops)) b.
+Proof. exact no_overflow. Qed.
+Print Assumptions C20_no_overflow.
+
+Theorem C20_no_overflow_62 : forall C e ops i b, 0 <= C <= 2 ^ 31 -> Z.of_nat (length ops) <= 2 ^ 20 -> Forall (op_wf C) ops ->
+  nth_error (w_bos (run e init_world ops)) i = Some b ->
+  b_total b < 2 ^ 62 /\ b_excl b < 2 ^ 62 /\ b_errnum b < 2 ^ 62 /\
+  (forall n v, In (n, v) (b_sleep b) -> 0 <= v < 2 ^ 62) /\ (forall n v, In (n, v) (b_times b) -> 0 <= v < 2 ^ 62) /\
+  (forall n f, In (n, f) (b_fn b) -> 0 <= f_att f < 2 ^ 62 /\ (f_base f < 2 ^ 60 -> 0 <= f_last f * 3 - f_base f + f_base f < 2 ^ 62)).
+Proof. exact no_overflow_62. Qed.
+Print Assumptions C20_no_overflow_62.
+
+(* expo: the value only depends on min(attempts, 62); up to there base*2^n is an exact double (53-bit mantissa,
+   exponent <= 62), beyond the result is the cap whatever the float product is (finite or +Inf) *)
+Theorem C20_expo_saturates : forall base cap n, 1 <= base -> cap < 2 ^ 62 -> 0 <= n ->
+  expo base cap n = expo base cap (Z.min n 62) /\ (62 <= n -> expo base cap n = cap).
+Proof. intros. split; [apply expo_min62|intros; apply expo_sat62]; auto. Qed.
+Print Assumptions C20_expo_saturates.
+
+Theorem C20_expo_arg_exact : forall base n, 0 <= base < 2 ^ 53 -> 0 <= n <= 62 ->
+  exists m ex, base * 2 ^ n = m * 2 ^ ex /\ 0 <= m < 2 ^ 53 /\ 0 <= ex <= 62 /\ base * 2 ^ n < 2 ^ 115.
+Proof. exact expo_arg_exact. Qed.
+Print Assumptions C20_expo_arg_exact.
+
+(* kinds that pass [cfg_okb] (0 < base, 2 <= cap, jitter 1..4, Decorr: max(2,base) <= cap and base not from vars):
+   the jitter draw is never from an empty interval (rand.Intn never panics) and, except for FullJitter, every
+   sleep is at least 1 ms — a retry loop cannot spin without backing off *)
+Theorem C20_kinds_live : forall e ops i c b, Forall (op_good e) ops -> cfg_okb (e_lfnames e) c = true ->
+  nth_error (w_bos (run e init_world ops)) i = Some b ->
+  forall f, pick_fn e (run e init_world ops) b c = Some f ->
+    fn_good f /\ (exists s, sleep_ok f s = true) /\ (f_jit f <> 2 -> forall s, sleep_ok f s = true -> 1 <= s).
+Proof. exact kinds_live. Qed.
+Print Assumptions C20_kinds_live.
+
+(* instantiated on every run with the table read from config/retry/config.go (build/coq_cases/C20Table.v) *)
+Theorem C20_table_applies : forall lf t, forallb (cfg_okb lf) t = true ->
+  0 <= table_cap t /\
+  forall c, In c t -> cfg_okb lf c = true /\ 0 < c_base c /\ 2 <= c_cap c <= table_cap t /\
+    (forall i m er s, op_wf (table_cap t) (OBackoff i c m er s)).
+Proof. exact table_applies. Qed.
+Print Assumptions C20_table_applies.
+
+(* Fork's context: inherits the parent's cancellation, its cancel function touches no older context (in particular
+   not the parent's), the parent's cancel function cancels the fork *)
+Theorem C20_cancel_scope : forall e ops i b,
+  let w := run e init_world ops in
+  nth_error (w_bos w) i = Some b -> b_live b = true ->
+  let w1 := fst (step e w (OFork i)) in
+  let cj := length (w_ctxs w) in
+  (exists nb, nth_error (w_bos w1) (length (w_bos w)) = Some nb /\ b_ctx nb = cj) /\
+  cancelled w1 cj = cancelled w (b_ctx b) /\
+  (forall c', (c' < cj)%nat -> cancelled (fst (step e w1 (OCancel cj))) c' = cancelled w1 c') /\
+  cancelled (fst (step e w1 (OCancel cj))) cj = true /\
+  cancelled (fst (step e w1 (OCancel (b_ctx b)))) cj = true.
+Proof. exact cancel_scope. Qed.
+Print Assumptions C20_cancel_scope.
+
 (* ---------- non-vacuity ---------- *)
-Definition ex_env := mkEnv [(4, 600000)] 6.
+Definition ex_env := mkEnv [(4, 600000)] [6].
 Definition txnLock := mkCfg 1 2 100 3000 3 2.
 Definition regionMiss := mkCfg 2 3 2 500 1 3.
 Definition busy := mkCfg 3 4 2000 10000 3 4.
@@ -162,3 +249,15 @@ Example budget_hypothesis_needed : exists b, nth_error (w_bos (run ex_env init_w
      OBackoff 1 txnLock (-1) 1 75; OBackoff 1 txnLock (-1) 2 150; OBackoff 1 txnLock (-1) 3 300; OMerge 0 1])) 0 = Some b /\
     b_max b = 100 /\ b_total b = 525.
 Proof. eexists. vm_compute. repeat split. Qed.
+(* the same run under the general theorem: the ghost is the fork's raised budget, 525 < 5000 + C holds *)
+Example ex_budget_general : exists b, nth_error (w_bos (run ex_env init_world
+    [ONewVars 1 10; ONew 100 1 0; OFork 0; OResetMax 1 5000;
+     OBackoff 1 txnLock (-1) 1 75; OBackoff 1 txnLock (-1) 2 150; OBackoff 1 txnLock (-1) 3 300; OMerge 0 1])) 0 = Some b /\
+    b_hi b = Some 5000 /\ b_max b = 100.
+Proof. eexists. vm_compute. repeat split. Qed.
+(* SetErrors after the config was recorded: the exhausted back-off reports the config's CURRENT error (9) *)
+Example ex_seterrors :
+  snd (step ex_env (run ex_env init_world (ex_ops ++ [OSetErr 1 9])) (OBackoff 0 regionMiss (-1) 4 2)) = RExceeded [Some 9].
+Proof. vm_compute. reflexivity. Qed.
+Example ex_real_kinds_ok : forallb (cfg_okb [6]) [txnLock; regionMiss; busy] = true.
+Proof. vm_compute. reflexivity. Qed.
